@@ -5,7 +5,7 @@ use crate::engine::*;
 use crate::gen;
 use crate::keys;
 use crate::proto::*;
-use crate::rt::{layer_build, layer_parse};
+use crate::rt::{layer_build, layer_parse, parse_twice};
 use proptest::prelude::*;
 use serde::{Deserialize, Serialize};
 
@@ -58,7 +58,14 @@ impl Sub for AssertionBinding {
     cl.tag(format!("related:{:?}", std::mem::discriminant(&c.rel)).replace("Discriminant", ""));
     cl.nontrivial(norm(&a) != norm(&a2));
     // (1) accept iff the same assertion is presented
-    let r = layer_parse(p, s.layer, &lk, &t, s.footer.as_deref(), a2.as_deref()).map(|o| o.message());
+    // the judged parse goes through a parser object that has just accepted the token under its own assertion
+    let (ctl, r) = parse_twice(p, s.layer, (&t, &lk, s.footer.as_deref(), a.as_deref()), (&t, &lk, s.footer.as_deref(), a2.as_deref()));
+    match ctl {
+      Ok(o) if o.message().as_deref() == Some(s.msg.as_str()) => {}
+      Ok(o) => vio!("C06:wrong-message:{}:{}", p.label(), s.layer.label(); "accepted under its own assertion but returned {:?}", o.message()),
+      Err(e) => vio!("C06:rejected-matching-assertion:{}:{}:{}", p.label(), s.layer.label(), e.variant; "token built with assertion {:?} rejected under the same assertion: {}", a, e.text),
+    }
+    let r = r.map(|o| o.message());
     let should_accept = norm(&a) == norm(&a2);
     match (should_accept, r) {
       (true, Ok(m)) if m.as_deref() == Some(s.msg.as_str()) => {}
